@@ -82,6 +82,8 @@ def _starts_with(m, args, raw):
     s, p = deref(args[0]), deref(args[1])
     if isinstance(p, str):          # a char pattern
         p = RStr(p)
+    if isinstance(p, int):
+        p = RStr(chr(p))
     if isinstance(p, RStr) and p.text is not None:
         if s.sym is None:
             return s.text.startswith(p.text)
